@@ -152,6 +152,7 @@ pub fn raw_munmap(addr: *mut c_void, len: usize) -> i32 {
 
 #[unsafe(no_mangle)]
 pub unsafe extern "C" fn close(fd: c_int) -> c_int {
+    let _scope = track::scope(track::TAG_HARNESS);
     let ret = raw_close(fd);
     let e = errno();
     with(|s| {
@@ -175,6 +176,7 @@ pub unsafe extern "C" fn mmap(
     fd: c_int,
     offset: libc::off_t,
 ) -> *mut c_void {
+    let _scope = track::scope(track::TAG_HARNESS);
     if fd >= 0 {
         let info = with(|s| s.simfds.iter().find(|i| i.fd == fd).copied());
         if let Some(info) = info {
@@ -239,6 +241,7 @@ pub unsafe extern "C" fn mmap(
 
 #[unsafe(no_mangle)]
 pub unsafe extern "C" fn munmap(addr: *mut c_void, len: usize) -> c_int {
+    let _scope = track::scope(track::TAG_HARNESS);
     let ret = raw_munmap(addr, len);
     let e = errno();
     with(|s| {
@@ -261,6 +264,7 @@ pub unsafe extern "C" fn munmap(addr: *mut c_void, len: usize) -> c_int {
 
 #[unsafe(no_mangle)]
 pub unsafe extern "C" fn madvise(addr: *mut c_void, len: usize, advice: c_int) -> c_int {
+    let _scope = track::scope(track::TAG_HARNESS);
     let a = addr.addr();
     let (is_sim, fail) = with(|s| {
         let is_sim = s.sim_maps.iter().any(|(ma, ml, _)| a >= *ma && a < ma + ml);
